@@ -6,26 +6,31 @@ CHA = (set(INTERP_CRATES) | {"common.lib", "texcraft_stdext.lib"}) - {"texcraft_
 ENTRY = ["texlang::vm::VM::run"]
 REGISTRY = ["<texlang_stdlib::StdLibState as texlang::vm::HasDefaultBuiltInCommands>::default_built_in_commands"]
 
-# (kind, module prefix) triples whose K3/K4 triage is complete
-ARMED_K34 = (
-    "texlang_stdlib::math::", "texlang::parse::integer::", "texlang::parse::dimen::", "texlang::parse::glue::", "common::",
+# source files whose K3/K4 triage is complete (armed in both tiers)
+ARMED_K34_FILES = (
+    "crates/texlang-stdlib/src/math.rs", "crates/texlang/src/parse/integer.rs", "crates/texlang/src/parse/dimen.rs",
+    "crates/texlang/src/parse/glue.rs", "crates/common/src/lib.rs",
 )
 
 
 def armed(fn, site):
     if site.kind in ("K1", "K2"):
         return True
-    from ..facts import strip_generics
-    nm = strip_generics(fn.name)
-    if nm.startswith("<"):
-        nm = nm[1:]
-    return nm.startswith(ARMED_K34)
+    return fn.file in ARMED_K34_FILES
 
 
 def run(F, R, tier):
-    R.rule("R9.4", "every potential-panic site (K1 explicit panics, K2 unwrap family; thorough: K3 assert terminators and K4 curated panicking std calls "
-                   "in the armed modules) in a function reachable in the call graph from VM::run through the StdLibState built-in registry is discharged "
-                   "by a constant, a checked dominating guard, its type, a size argument or an audited invariant; otherwise it is a finding")
-    kinds = ("K1", "K2") if tier == "quick" else ("K1", "K2", "K3", "K4")
+    R.rule("R9.4", "every potential-panic site (K1 explicit panics, K2 unwrap family everywhere; K3 assert terminators and K4 curated panicking std calls "
+                   "in the armed files, others listed as undecided) in a function reachable in the call graph from VM::run through the StdLibState built-in "
+                   "registry is discharged by a constant, a checked dominating guard, its type, a size argument or an audited invariant; otherwise it is a finding")
+    kinds = ("K1", "K2", "K3", "K4")
     run_pps(F, R, "R9.4", ENTRY, kinds, CHA, registry_names=REGISTRY, armed=armed, floor_fns=700, floor_sites=70,
             what=": the interpreter would crash instead of returning a located error")
+    if tier == "thorough":
+        # second registry: the texcraft binary's state (adds texlang-font and the text transforms)
+        R.rule("R9.4b", "same, through the texcraft binary's built-in registry (K1+K2 armed; sites shared with R9.4 keep their keys)")
+        regs = [f.name for f in F.fns.values() if f.crate == "texcraft.bin" and f.name.endswith("built_in_commands")]
+        if regs:
+            from ..facts import strip_generics
+            run_pps(F, R, "R9.4b", ENTRY, ("K1", "K2"), CHA | {"texcraft.bin"}, registry_names=[strip_generics(r) for r in regs], armed=armed,
+                    floor_fns=700, floor_sites=70, what=": the interpreter would crash instead of returning a located error")
